@@ -331,11 +331,18 @@ def run(tier: str) -> int:
             al = name in ALIGNED_ONLY
             kk, mk = (K, lambda: AxiMonitor(model, aligned=al)) if kind == "protocol+data" else (10, lambda: ProgressMonitor(model, 10, aligned=al))
             status, info = run_bmc(rw.stats, lib, INPUTS, OUTPUTS, kk, mk, timeout_ms=900000)
-            return {"status": status, "info": info if isinstance(info, (dict, str)) else str(info), "kk": kk, "source": src, "vhdl": text if status == "violation" else None,
+            reduced = None
+            if status == "unknown" and kind == "protocol+data" and kk > 8:
+                # the deeper bound did not finish within the cap: decide the quick bound instead and say so (never a pass at K)
+                reduced = (kk, 8)
+                kk = 8
+                status, info = run_bmc(rw.stats, lib, INPUTS, OUTPUTS, kk, mk, timeout_ms=900000)
+            return {"reduced": reduced, "status": status, "info": info if isinstance(info, (dict, str)) else str(info), "kk": kk, "source": src, "vhdl": text if status == "violation" else None,
                     "validated": rw.stats.extra.get("traces_validated", 0)}
 
         from ..core import parallel_programs
         results = parallel_programs(rep, len(jobs), job)
+        reduced_bounds = []
         rep.stats.programs += len(names)
         validated = 0
         for i in sorted(results):
@@ -354,6 +361,8 @@ def run(tier: str) -> int:
                 rep.inconclusive_query(f"{key}: {r['why']}")
                 continue
             info, kk = r["info"], r["kk"]
+            if r.get("reduced"):
+                reduced_bounds.append(f"{key}: K={r['reduced'][0]} undecided within 900 s, decided at K={r['reduced'][1]}")
             counts[status] = counts.get(status, 0) + 1
             transitions += kk
             states += kk + 1
@@ -368,6 +377,8 @@ def run(tier: str) -> int:
             else:
                 rep.inconclusive_query(f"{key}: {status} {info}")
         rep.stats.extra["traces_validated"] = validated
+        if reduced_bounds:
+            rep.assumptions.append("bound reduced (solver cap): " + "; ".join(reduced_bounds))
         rep.stats.units |= {"cohdl.std.axi.axi4_light.base (await_read_request / send_read_resp / await_write_request / send_write_response / connect_addr_map)",
                             "cohdl.std.reg.reg (AddrMap / RegFile dispatch, _contains_addr_, Register._basic_write_, MemWord._on_write_)", "cohdl.std._core_utility.Mask / apply_mask / stretch"}
         rep.assumptions += ["AXI master rules assumed: AWVALID/WVALID/ARVALID held and payload stable until the handshake; everything else (all valids, readies, addresses, data, strobes, reset) symbolic at every clock",
@@ -375,7 +386,7 @@ def run(tier: str) -> int:
                             "read data of unmapped addresses is not constrained; hardware-side notifications are not modelled"]
         return rep.finish({
             "states": states, "transitions": transitions, "traces_validated_against_impl": rep.stats.extra.get("traces_validated", 0),
-            "designs": rep.stats.programs, "results": counts,
+            "designs": rep.stats.programs, "results": counts, "bounds_reduced": reduced_bounds,
             "samples": rep.stats.samples or [{"design": "fields"}],
             "distinct_nontrivial": len(rep.stats.nontrivial), "evaluations": rep.stats.programs * 2,
         })
